@@ -72,6 +72,9 @@ def main(argv=None):
         print("unknown or not-applicable property", a.pid)
         return 2
     cfg = props.PROPS[a.pid]
+    # one build directory per property, so that checks of different properties can run side by side
+    if not os.environ.get("VERIF_BUILD"):
+        engine.BUILD = os.path.join(VERIF, "build", a.pid)
     if a.replay:
         return replay(a.pid, a.replay)
     t0 = time.time()
